@@ -30,8 +30,9 @@ LEVEL = "exploration"
 TECHNIQUE = "model-based history testing (bounded exhaustive op sequences x every option combination + Hypothesis histories over task pools) of the real TaskRegistry on a virtual-time loop; instance creation observed through a loop task factory"
 RULE = (
     "case = (initial connection state, 1..3 Task objects with options restart_after_reconnect x wait_before_start {0,0.5,2} x wait_for_connection x repeat_after {None,0,1,3} x target {sync, async with duration 0/0.5/2, raising}, "
-    "history over {start_task i, remove_task i, connection CONNECTED/DISCONNECTED/CONNECTING, advance 0.25..7 s, registry stop, registry start}); "
-    "every option combination x every op sequence up to length 3 (quick) / 4 (thorough) from both initial connection states is enumerated for a single task, longer histories (<= 16 ops, <= 3 tasks) are sampled; "
+    "additional target kinds: 'swallow' (async, catches CancelledError and returns after 0..3 further loop iterations; only without repeat_after) and 'rearm' (sync, calls start_task()/restart() on its own task from inside, at most 1-2 times per case); "
+    "history over {start_task i, remove_task i, connection CONNECTED/DISCONNECTED/CONNECTING, flap = 2-4 connection changes without a loop iteration in between, advance 0.25..7 s, registry stop, registry start}); "
+    "every option combination x every op sequence up to length 3 (quick) / 4 (thorough) from both initial connection states is enumerated for a single task, the 16 swallow / re-arm configurations x every sequence up to length 3 over those ops plus advance 0.5 s and the flap DISCONNECTED,CONNECTED, longer histories (<= 16 ops, <= 3 tasks) are sampled; "
     "a zero repeat interval is only generated together with a positive wait or target duration (otherwise a busy loop in real and virtual time); "
     "non-trivial = the history starts a task and afterwards changes the connection state, re-starts, removes or stops while that task is registered; distinct by case"
 )
@@ -43,11 +44,12 @@ ASSUMPTIONS = [
     "a restart-flagged task that the user start_task()s while disconnected runs (the statement constrains tasks registered before the change to a non-connected state); it must still be gone after the next change between non-connected states and be restarted exactly once on CONNECTED",
     "'running' = a not-done asyncio task created by the registry for that Task (sampled after the loop has settled) or an open target invocation; the cancellation of an instance is complete within the settle phase of the same step",
     "a zero repeat interval is only combined with a positive wait_before_start or target duration; BudgetExceeded/Deadlock cases are counted as inconclusive",
+    "a target that re-arms its own task is a start_task()/restart() call by the user: each logged re-arm adds one expected instance in that step and the replaced instance (which then finishes normally) must be gone after the step; a target that swallows CancelledError is only generated without repeat_after (otherwise the cancelled instance lives on by the target's own doing) and its invocation counts as closed when the cancellation is delivered",
     "exceptions raised by a 'raising' target end that instance and reach the loop exception handler on collection; only other exception types count as escaped",
 ]
 
 STATES = {"C": "CONNECTED", "D": "DISCONNECTED", "G": "CONNECTING"}
-SETTLE = 6
+SETTLE = 10
 
 
 class TargetBoom(Exception):
@@ -55,8 +57,19 @@ class TargetBoom(Exception):
 
 
 def busy(cfg) -> bool:
-    zero_target = cfg["kind"] in ("sync", "raise") or not cfg["dur"]
+    zero_target = cfg["kind"] in ("sync", "raise", "rearm") or not cfg["dur"]
     return cfg["repeat"] == 0 and not cfg["wait"] and zero_target and cfg["kind"] != "raise"
+
+
+def valid(cfg) -> bool:
+    """Configurations the registry can be held responsible for."""
+    if busy(cfg):
+        return False
+    if cfg["kind"] == "swallow":
+        # a target that swallows CancelledError ends its instance only if the run loop does not
+        # repeat (with repeat_after the cancelled instance would go on by the target's own doing)
+        return cfg["repeat"] is None and cfg["dur"] > 0
+    return True
 
 
 # --------------------------------------------------------------------------- execution
@@ -100,6 +113,36 @@ def execute(case):
                         log("enter")
                         log("exit")
                         raise TargetBoom(f"task{i}")
+
+                elif cfg["kind"] == "rearm":
+                    # retrigger pattern: the target starts its own task again (at most `rearm` times per case)
+                    budget = [int(cfg.get("rearm", 1))]
+
+                    def target():
+                        log("enter")
+                        if budget[0] > 0:
+                            budget[0] -= 1
+                            log("rearm")
+                            if budget[0] % 2:
+                                tasks[i].restart()
+                            else:
+                                reg.start_task(tasks[i])
+                        log("exit")
+
+                elif cfg["kind"] == "swallow":
+                    # clean-up pattern of the repo's own test_reconnect_handling: CancelledError is
+                    # caught and the target returns after `after` further loop iterations
+
+                    async def target():
+                        log("enter")
+                        try:
+                            await asyncio.sleep(cfg["dur"])
+                        except asyncio.CancelledError:
+                            log("cancel")
+                            for _ in range(int(cfg.get("after", 0))):
+                                await asyncio.sleep(0)
+                            return
+                        log("exit")
 
                 else:
 
@@ -151,6 +194,10 @@ def execute(case):
                     reg.remove_task(tasks[op[1]])
                 elif op[0] == "conn":
                     h.xknx.connection_manager.connection_state_changed(XknxConnectionState[STATES[op[1]]])
+                elif op[0] == "flap":
+                    # several connection state changes without a loop iteration in between
+                    for st_ in op[1]:
+                        h.xknx.connection_manager.connection_state_changed(XknxConnectionState[STATES[st_]])
                 elif op[0] == "adv":
                     await asyncio.sleep(op[1])
                 elif op[0] == "stop":
@@ -213,6 +260,10 @@ def judge(ctx, case, obs) -> None:
             failed.add(bucket)
             ctx.fail(bucket, inp, detail)
 
+    rearms: dict = {}
+    for k_, i_, ev_, _inst, _t in obs["events"]:
+        if ev_ == "rearm":
+            rearms[(k_, i_)] = rearms.get((k_, i_), 0) + 1
     for k, op in enumerate(ops):
         snap = obs["steps"][k]
         exp_new = [0] * n
@@ -232,15 +283,18 @@ def judge(ctx, case, obs) -> None:
                 suppressed[i] = False
                 must_dead[i] = True
                 open_quiet(i, k, "removed")
-        elif op[0] == "conn":
-            if op[1] != state:
-                state = op[1]
+        elif op[0] in ("conn", "flap"):
+            for new_state in [op[1]] if op[0] == "conn" else op[1]:
+                if new_state == state:
+                    continue
+                state = new_state
                 if reg_started:
                     for i in range(n):
                         if registered[i] and cfgs[i]["flag"]:
                             if state == "C":
-                                exp_new[i] = 1
+                                exp_new[i] += 1
                                 replace[i] = True
+                                must_dead[i] = False
                                 suppressed[i] = False
                                 close_quiet(i, k)
                             else:
@@ -260,10 +314,15 @@ def judge(ctx, case, obs) -> None:
         for i in range(n):
             if suppressed[i]:
                 must_dead[i] = True
+            # a target that re-arms its own task is a start_task()/restart() call by the user
+            r = rearms.get((k, i), 0)
+            if r:
+                exp_new[i] += r
+                replace[i] = True
             s = snap[i]
             what = f"op {k} {op} task{i} {cfgs[i]}"
             if s["new"] != exp_new[i]:
-                if op[0] == "conn":
+                if op[0] in ("conn", "flap"):
                     rel = "restart-count" if exp_new[i] else "spurious-restart"
                 elif op[0] == "start":
                     rel = "start-count"
@@ -287,6 +346,8 @@ def judge(ctx, case, obs) -> None:
         close_quiet(i, len(ops) + 1)
     open_inst: dict[int, set] = {i: set() for i in range(n)}
     for k, i, ev, inst, t in obs["events"]:
+        if ev == "rearm":
+            continue
         if ev == "enter":
             if open_inst[i]:
                 fail("C36:target-concurrent", f"task{i} {cfgs[i]}: target entered at op {k} t={t} while another invocation was open")
@@ -308,7 +369,7 @@ def classify(case):
                 nontrivial = True
                 cls.add("re-start")
             started.add(op[1])
-        elif started and op[0] in ("conn", "remove", "stop"):
+        elif started and op[0] in ("conn", "flap", "remove", "stop"):
             if op[0] != "remove" or op[1] in started:
                 nontrivial = True
                 cls.add(op[0])
@@ -337,6 +398,8 @@ def selftest(ctx) -> None:
     assert not busy({"kind": "async", "dur": 0.5, "repeat": 0, "wait": 0})
     assert not busy({"kind": "sync", "dur": 0, "repeat": 0, "wait": 0.5})
     assert len(all_configs()) == 2 * 2 * 2 * 3 * 3 - 4
+    assert not valid({"kind": "swallow", "dur": 0.5, "repeat": 1, "wait": 0}) and valid({"kind": "swallow", "dur": 0.5, "repeat": None, "wait": 0})
+    assert busy({"kind": "rearm", "dur": 0, "repeat": 0, "wait": 0})
 
 
 # --------------------------------------------------------------------------- generation
@@ -354,6 +417,38 @@ def all_configs():
 
 
 ENUM_OPS = [["start", 0], ["remove", 0], ["conn", "C"], ["conn", "D"], ["adv", 1.0], ["stop"]]
+ENUM_OPS2 = ENUM_OPS + [["adv", 0.5], ["flap", ["D", "C"]]]
+
+
+def special_configs():
+    """Targets that finish normally after having been replaced: swallowed cancel, self re-arm."""
+    out = []
+    for flag, wfc in itertools.product((False, True), (False, True)):
+        for wait, after in ((0, 0), (0.5, 1)):
+            out.append({"flag": flag, "wait": wait, "wfc": wfc, "repeat": None, "kind": "swallow", "dur": 0.5, "after": after})
+        for repeat in (None, 1):
+            out.append({"flag": flag, "wait": 0.5, "wfc": wfc, "repeat": repeat, "kind": "rearm", "dur": 0, "rearm": 1})
+    return out
+
+
+def _enum2_shard(ctx, L: int, part: int, parts: int) -> None:
+    n = nt = 0
+    for ci, cfg in enumerate(special_configs()):
+        if ci % parts != part:
+            continue
+        for init in (False, True):
+            for length in range(1, L + 1):
+                for ops in itertools.product(ENUM_OPS2, repeat=length):
+                    if ops[0][0] in ("remove",):
+                        continue
+                    case = {"init_conn": init, "tasks": [cfg], "ops": [list(o) for o in ops]}
+                    check_case(ctx, case)
+                    n += 1
+                    if classify(case)[0]:
+                        nt += 1
+                    if n % 499 == 7:
+                        ctx.sample(case)
+    ctx.bulk(n, nt, f"enum-special-L<={L}")
 
 
 def _enum_shard(ctx, L: int, part: int, parts: int) -> None:
@@ -383,10 +478,12 @@ _cfg = st.fixed_dictionaries(
         "wait": st.sampled_from([0, 0, 0.5, 2]),
         "wfc": st.booleans(),
         "repeat": st.sampled_from([None, None, 0, 1, 3]),
-        "kind": st.sampled_from(["sync", "async", "async", "raise"]),
+        "kind": st.sampled_from(["sync", "async", "async", "raise", "swallow", "rearm"]),
         "dur": st.sampled_from([0, 0.5, 2]),
+        "after": st.sampled_from([0, 1, 3]),
+        "rearm": st.sampled_from([1, 2]),
     }
-).filter(lambda c: not busy(c))
+).filter(valid)
 
 
 @st.composite
@@ -402,12 +499,15 @@ def cases(draw):
         st.tuples(st.just("conn"), st.sampled_from(["C", "D", "C", "D", "G"])),
         st.tuples(st.just("adv"), st.sampled_from([0.25, 0.5, 1.0, 2.5, 7.0])),
         st.tuples(st.just("stop")),
+        st.tuples(st.just("flap"), st.lists(st.sampled_from(["C", "D", "G"]), min_size=2, max_size=4)),
     )
     raw = draw(st.lists(op, min_size=1, max_size=16))
     ops = []
     stopped = False
     for o in raw:
         ops.append(list(o))
+        if o[0] == "flap":
+            ops[-1][1] = list(o[1])
         if o[0] == "stop":
             if stopped:
                 ops[-1] = ["rstart"]
@@ -465,9 +565,10 @@ def run(ctx) -> None:
     L = ctx.n(3, 4)
     parts = 8
     parallel(ctx, _enum_shard, [(L, p, parts) for p in range(parts)], procs=_procs())
+    parallel(ctx, _enum2_shard, [(3, p, parts) for p in range(parts)], procs=_procs())
     parallel(ctx, _hyp_shard, [(ctx.n(250, 2500),)] * 8, procs=_procs())
     ctx.notes["exhaustive_op_sequences_up_to"] = L
-    ctx.notes["option_combinations"] = len(all_configs())
+    ctx.notes["option_combinations"] = len(all_configs()) + len(special_configs())
     ctx.notes["observation_live_instances_two_task_objects_same_name"] = _probe_same_name()
     ctx.exhaustive = False
 
